@@ -58,12 +58,12 @@ func Edit(_ *log.Logger, inputArchive string, newHeaderJSONFile string, newMetad
 		newHeader.TileCompression = stringToCompression(newHeaderData.TileCompression)
 		newHeader.MinZoom = uint8(newHeaderData.MinZoom)
 		newHeader.MaxZoom = uint8(newHeaderData.MaxZoom)
-		newHeader.MinLonE7 = int32(newHeaderData.Bounds[0] * 10000000)
-		newHeader.MinLatE7 = int32(newHeaderData.Bounds[1] * 10000000)
-		newHeader.MaxLonE7 = int32(newHeaderData.Bounds[2] * 10000000)
-		newHeader.MaxLatE7 = int32(newHeaderData.Bounds[3] * 10000000)
-		newHeader.CenterLonE7 = int32(newHeaderData.Center[0] * 10000000)
-		newHeader.CenterLatE7 = int32(newHeaderData.Center[1] * 10000000)
+		newHeader.MinLonE7 = degreesToE7(newHeaderData.Bounds[0])
+		newHeader.MinLatE7 = degreesToE7(newHeaderData.Bounds[1])
+		newHeader.MaxLonE7 = degreesToE7(newHeaderData.Bounds[2])
+		newHeader.MaxLatE7 = degreesToE7(newHeaderData.Bounds[3])
+		newHeader.CenterLonE7 = degreesToE7(newHeaderData.Center[0])
+		newHeader.CenterLatE7 = degreesToE7(newHeaderData.Center[1])
 		newHeader.CenterZoom = uint8(newHeaderData.Center[2])
 	}
 
